@@ -56,6 +56,10 @@ FINDINGS = {
                 "the `#` inside the COMMENT token; on a recognised macro line (`name! raw text  # c`) the formatter copies the source gap "
                 "(now one blank short) and strips the token, so every pass eats one blank before the comment (not idempotent) and a "
                 "single blank disappears: `m! a # c` -> `m! a# c`, the comment becomes part of the macro's raw argument", "$[ls]\nm! a # c\n"),
+    "C17-F16": ("once a line *starts* with `![` `$[` `$(` `!(` (even inside a string literal) xonsh's tokenizer reports comments with the "
+                "blank before the `#` inside the COMMENT token; a comment on its own line inside brackets is re-emitted with the source's "
+                "leading blanks up to the token start and the token stripped, so it moves one column to the left on every pass: "
+                "format_source is not idempotent", "![ls]\nx = [\n      # c\n    1]\n"),
 }
 
 
@@ -108,6 +112,9 @@ def edit_finding(d):
                 and len(d["inserted"]) == len(d["removed"]) - 1 and d["inserted"].strip(" \t") == "":
             return "C17-F15"
         return None
+    if rule == "bracket-continuation-indent" and shape in ("respace", "remove") and nxt is not None and nxt.type == A._mods().COMMENT \
+            and nxt.quirk and len(d["inserted"]) == len(d["removed"]) - 1 and ctx in ("python", "subproc"):
+        return "C17-F16"
     if rule.endswith(":strip-trailing-blank") and rule.startswith(("in-STRING", "in-FSTRING_MIDDLE")) and ctx in ("token", "fstring"):
         return "C17-F01"
     if ctx == "fstring":
@@ -202,8 +209,9 @@ def classify(kind, sig, det, open_ids):
         # (a backslash, a lone quote) are re-spaced on every pass
         if all(d["ctx"] == "macro-block" for d in det) and "C17-F04" in open_ids:
             return "C17-F04"
-        if {edit_finding(d) for d in det} == {"C17-F15"} and "C17-F15" in open_ids:
-            return "C17-F15"
+        for fid in ("C17-F15", "C17-F16"):
+            if {edit_finding(d) for d in det} == {fid} and fid in open_ids:
+                return fid
         return None
     ids = {edit_finding(d) for d in det}
     if len(ids) == 1:
